@@ -130,11 +130,25 @@ fn check_case(ctx: &Ctx, stream: &str, idx: u64, scfg: &SCfg, inserts: &[Entry],
 
 fn gen_small_entries(rng: &mut Rng, t: usize, total: usize, cap_count: usize) -> Vec<Entry> {
     let max_entry = (t / 4).max(1);
-    let style = rng.below(4);
+    let style = rng.below(5);
+    let mut burst_left = 0usize;
     let mut out = Vec::new();
     let mut sum = 0usize;
     let mut i = 0u32;
     while sum < total && out.len() < cap_count {
+        // style 4: bursts of zero-length ("", "") entries longer than the number of bounds the
+        // buffer can hold, between stretches of ordinary data
+        if style == 4 {
+            if burst_left == 0 && rng.chance(1, 60) {
+                burst_left = t / 16 + rng.range(2, 40);
+            }
+            if burst_left > 0 {
+                burst_left -= 1;
+                out.push((vec![], vec![]));
+                i += 1;
+                continue;
+            }
+        }
         let size = match style {
             0 => max_entry,                        // always the largest allowed
             1 => rng.range(0, max_entry.min(64)),  // tiny
@@ -166,7 +180,8 @@ pub fn run(ctx: &Ctx) -> i32 {
         let mut scfg = gen_scfg(rng);
         scfg.parallel = false;
         scfg.max_nb_chunks = *rng.pick(&[1usize, 1, 2, 3, 5, 8, 30]);
-        scfg.budget = *rng.pick(&[1024usize, 2048, 4096, 16_384, 65_536]);
+        // budgets on and off multiples of the 16-byte bound size
+        scfg.budget = *rng.pick(&[1000usize, 1024, 2048, 4096, 5000, 10_001, 14_285, 16_384, 65_536]);
         // initial capacity never above the budget (as with the real constants)
         scfg.initial = if scfg.allow_realloc {
             Some(match rng.below(6) {
@@ -200,7 +215,7 @@ pub fn run(ctx: &Ctx) -> i32 {
     let big = ctx.tier == Tier::Thorough;
     ctx.par("real-threshold", n, true, |idx, rng| {
         // budgets on and off the 128 KiB x 2^n doubling steps of the buffer
-        let requested = *rng.pick(&[0usize, 1024, 10 * 1024 * 1024, 16 * 1024 * 1024, 12_000_000, 16_000_000, 20_000_000]);
+        let requested = *rng.pick(&[0usize, 1024, 10 * 1024 * 1024, 16 * 1024 * 1024, 12_000_000, 14_285_714, 16_000_000, 20_000_000]);
         let scfg = SCfg {
             budget: requested,
             raw: false,
